@@ -25,7 +25,9 @@ RULE = (
     "parameters in permuted order: Call output wiring vs _update_inout_ports model. Non-trivial = path depth >= 2 or a "
     "subscript on the path; >= 2 borrowed parameters for signatures; distinct by canonical request. (3) assignment probes "
     "`<place>.f = v` (StmtCompiler._assign_place) for paths ending in a struct field of affine type array[int, 2]: same "
-    "extraction / emission / interpretation against store[pi := v]; and `<place>[i] = v` for a copyable element (classical set)"
+    "extraction / emission / interpretation against store[pi := v]; (4) end-to-end: qubit-free programs in which a callee mutates "
+    "its borrowed argument reached through every place shape are run on the reference interpreter (both schedules) and under CPython, "
+    "the returned structure must be equal; and `<place>[i] = v` for a copyable element (classical set)"
 )
 ASSUMPTIONS = [
     "assumed op semantics (outside the repo): UnpackTuple/MakeTuple are the tuple projections/constructor; borrow(arr,i) hands out "
@@ -37,7 +39,12 @@ ASSUMPTIONS = [
     "HUGR dataflow: a straight-line block computes its outputs from its inputs by evaluating nodes in dependency order",
 ]
 UNMODELLED = [
-    "runtime values (qubits, gate effects): leaves are opaque numbers, the callee is an arbitrary function",
+    "run-time values are SAMPLED, not proved: qubit-free programs (a callee mutating its borrowed argument in place, reached through x, "
+    "s.f, t[0], xs[i], xs[i].f, s.t[0], nested subscripts ... up to depth 3; argument types array[int,2], nested arrays, structs, "
+    "tuples; called once, twice, or through a second borrowing function) are lowered by the real compiler, executed by the reference "
+    "interpreter harness/hugr_interp.py (notes/INTERP.md) under both schedules with in-range and out-of-range indices, and the whole "
+    "structure returned is compared with CPython running the same source (lists / dataclasses mutated in place); qubits and gate "
+    "effects stay opaque in the Lean model (leaves are numbers, the callee an arbitrary function)",
     "the wire-level theorem (wire_writeback) is about the MODEL's emission emitW, which is tied to the real compiler by per-probe "
     "comparison (T-obj), and assumes a store that conforms to the root type; the classical-set assignment emitAssignSetW is compared and "
     "executed per probe, not proved at wire level (its place-level sequence is: assign_set_lens)",
@@ -45,6 +52,7 @@ UNMODELLED = [
     "places on the left of assignments (`xs[i].f = v`, _assign_place) beyond the shared __setitem__ cascade",
 ]
 TRUSTED_EXTRA = [
+    "harness/hugr_interp.py (reference interpreter, search oracle only) and the CPython shim used by harness/props/c19_e2e.py",
     "harness/props/c19_ssa.py: extraction of op lists and wiring from the in-memory Hugr (node order = emission order)",
     "the Python interpreter of extracted op lists in c07.py",
 ]
@@ -58,7 +66,7 @@ MANIFEST = {
     "paths the REAL compiler's op list and wiring is extracted from the Hugr, compared with the model's wire-level emission, and "
     "interpreted (Python and Lean) against the lens and against the place-level sequence; FuncDefn signatures and Call wiring are "
     "read from lowered probes.",
-    "level_note": "Partial: runtime values are unmodelled; the wire-level theorem is about the model's emission (tied to the real compiler by "
+    "level_note": "Runtime sampled through the reference interpreter (not unmodelled, not proved). Partial: runtime values are unmodelled; the wire-level theorem is about the model's emission (tied to the real compiler by "
     "per-probe comparison) and well-typed stores; the classical-set assignment is checked per probe at wire level; linear, affine and copyable component types are modelled. Trusted: Lean kernel + propext/Classical.choice/Quot.sound, "
     "the Hugr op-list extractor, assumed op semantics. Probes are sampling (all step-kind sequences up to the tier's depth).",
     "technique": "Lean 4 proof (lens laws + cascade induction) + per-run extraction of the real lowering (T-obj) with a store-semantics oracle",
@@ -492,6 +500,119 @@ def stale_struct_check(ctx):
         feed.unload(m)
 
 
+# ------------------------------------------------------------------ end-to-end execution oracle (interpreter vs CPython)
+# types here are qubit-free so that CPython can mirror them: ("i",) int | ("ai",) array[int, 2] | ("aa",) array[array[int, 2], 2]
+# | ("st", [types], name) struct | ("tp", [types]) tuple | ("arr", T, 3)
+def _e_src(t):
+    if t[0] == "i":
+        return "int"
+    if t[0] == "ai":
+        return "array[int, 2]"
+    if t[0] == "aa":
+        return "array[array[int, 2], 2]"
+    if t[0] == "st":
+        return t[2]
+    if t[0] == "tp":
+        return "tuple[" + ", ".join(_e_src(x) for x in t[1]) + "]"
+    return f"array[{_e_src(t[1])}, {t[2]}]"
+
+
+def _e_lit(t, counter):
+    if t[0] == "i":
+        return str(next(counter))
+    if t[0] == "ai":
+        return f"array({next(counter)}, {next(counter)})"
+    if t[0] == "aa":
+        return f"array(array({next(counter)}, {next(counter)}), array({next(counter)}, {next(counter)}))"
+    if t[0] == "st":
+        return t[2] + "(" + ", ".join(_e_lit(x, counter) for x in t[1]) + ")"
+    if t[0] == "tp":
+        return "(" + ", ".join(_e_lit(x, counter) for x in t[1]) + ")"
+    return "array(" + ", ".join(_e_lit(t[1], counter) for _ in range(t[2])) + ")"
+
+
+def gen_e2e_place(rng, kinds, arg_kind, variant):
+    """a qubit-free program: main builds a structure, lends the place reached by `kinds` to a mutating callee, returns it all"""
+    structs = []
+
+    def mk_struct(fields):
+        name = f"E{next(_struct_counter)}"
+        structs.append((name, fields))
+        return ("st", fields, name)
+
+    def filler():
+        return rng.choice([("i",), ("i",), ("ai",)])
+
+    if arg_kind == "ai":
+        t = ("ai",)
+        body = ["a[0] = a[0] + 100", "a[1] = a[1] + 200"]
+    elif arg_kind == "aa":
+        t = ("aa",)
+        body = ["a[1][0] = a[1][0] + 100", "a[0][1] += 200"]
+    elif arg_kind == "st":
+        t = mk_struct([("ai",), ("i",)])
+        body = ["a.f0[1] = a.f0[1] + 100"] + (["a.f0 = array(a.f0[0] + 5, 55)"] if rng.random() < 0.5 else [])
+    else:
+        t = ("tp", [("ai",), ("i",)])
+        body = ["a[0][0] = a[0][0] + 100"]
+    arg_ty = t
+    steps, m = [], sum(1 for k in kinds if k == "sub")
+    level = m
+    for kind in reversed(kinds):
+        if kind == "sub":
+            t = ("arr", t, 3)
+            steps.append(("sub", level))
+            level -= 1
+        else:
+            arity = rng.choice([2, 2, 3])
+            pos = rng.randrange(arity)
+            elems = [filler() for _ in range(arity)]
+            elems[pos] = t
+            t = mk_struct(elems) if kind == "field" else ("tp", elems)
+            steps.append(("proj", pos))
+    steps.reverse()
+    expr, tt = "x", t
+    for st_ in steps:
+        if st_[0] == "sub":
+            expr += f"[i{st_[1]}]"
+            tt = tt[1]
+        else:
+            expr += f".f{st_[1]}" if tt[0] == "st" else f"[{st_[1]}]"
+            tt = tt[1][st_[1]]
+    out = []
+    for name, fields in structs:
+        out.append("@guppy.struct\nclass %s:\n%s\n" % (name, "\n".join(f"    f{k}: {_e_src(ft)}" for k, ft in enumerate(fields))))
+    out.append(f"@guppy\ndef cal(a: {_e_src(arg_ty)}) -> None:\n" + "\n".join("    " + b for b in body) + "\n")
+    if variant == "nest":
+        out.append(f"@guppy\ndef outer(a: {_e_src(arg_ty)}) -> None:\n    cal(a)\n    cal(a)\n")
+    params = ", ".join(f"i{j}: int" for j in range(1, m + 1))
+    call = {"once": f"    cal({expr})", "twice": f"    cal({expr})\n    cal({expr})", "nest": f"    outer({expr})"}[variant]
+    out.append(f"@guppy\ndef main({params}) -> {_e_src(t)}:\n    x = {_e_lit(t, itertools.count(1))}\n{call}\n    return x\n")
+    return "\n".join(out), expr, m
+
+
+def e2e(ctx):
+    import c19_e2e as E
+    rng = ctx.rng
+    seqs = _all_kind_seqs(2) + [("sub", "sub", "sub"), ("sub", "field", "sub"), ("field", "sub", "sub"), ("sub", "sub", "tuple")]
+    extra = [s_ for s_ in _all_kind_seqs(3) if len(s_) == 3]
+    rng.shuffle(extra)
+    seqs += extra[: (4 if ctx.quick else len(extra))]
+    skipped = 0
+    for ks in seqs:
+        arg_kinds = ["ai", rng.choice(["aa", "st", "tp"])] if ctx.quick else ["ai", "aa", "st", "tp"]
+        for a in arg_kinds:
+            variant = rng.choice(["once", "once", "twice", "nest"])
+            src, expr, m = gen_e2e_place(rng, list(ks), a, variant)
+            inputs = [tuple(rng.randrange(0, 3) for _ in range(m)) for _ in range(3 if m else 1)]
+            if m:
+                inputs.append(tuple(rng.choice([-1, 3, 0, 1, 2, 1 << 33]) for _ in range(m)))
+                inputs.append(tuple([0] * (m - 1) + [rng.choice([-1, 3])]))
+            skipped += E.check_program(ctx, f"place:{variant}", src, inputs, f"input:e2e cal({expr}) [{variant}] :: {src}",
+                                       nontrivial=len(ks) >= 2 or "sub" in ks)
+    ctx.extra["e2e_skipped"] = skipped
+
+
 # ------------------------------------------------------------------ tie
 def _all_kind_seqs(depth):
     out = []
@@ -511,6 +632,7 @@ def tie(ctx):
         corpus.append(ctx.replay_in["replay"]["case"])
 
     stale_struct_check(ctx)
+    e2e(ctx)
 
     # ---- place probes
     seqs = [tuple(c["kinds"]) for c in corpus if c.get("kind") == "place"]
